@@ -60,7 +60,7 @@ def run(ctx):
                     "cvss/cvss4.py",
                     "severity levels of %s are not strictly ordered with severity (%s)" % (k, bad),
                 )
-    led.require_min("C14.levels", nlev, 14, "v4 level tables")
+    led.require_min("C14.levels", nlev, 10, "v4 level tables")
     R4.check_tail(ctx, led, om4)
     led.ok("C14.within", "CVSS4 score inside one macrovector", "cvss/cvss4.py", "value - mean(a_i*d_i/(D_i*0.1)) with a_i >= 0 (lookup monotone), D_i > 0 (depth tables): non-increasing in every distance")
     total_cert = 0
